@@ -483,6 +483,68 @@ def run(prog, rep, tier):
     if bad:
         rep.violation(R86, wb.path + "|loop-exits", "exec_fixedstructprocessor: the record loop can end (line %s) on a condition other than the reader's Done/Err; records are served in time order, so stopping at the physically last record (or any other early stop) drops the later-timed ones" % bad[0][1])
 
+    # ------------------------------------------------------------ R8.8 a file of exactly one smallest record is not "too small"
+    nb_ = prog.body(FSR + "::new")
+    R88 = rep.rule("R8.8", "the too-small rejection is strict: a file of exactly ENTRY_SZ_MIN bytes holds one record")
+    emin = None
+    for k_, v_ in prog.facts.consts.items():
+        if k_.endswith("fixedstruct::ENTRY_SZ_MIN"):
+            emin = v_["value"]
+    if not isinstance(emin, int):
+        raise CheckerError("ENTRY_SZ_MIN constant not found")
+    cmps_ = []
+    for bb in sorted(nb_.live):
+        for s_ in nb_.stmts(bb):
+            if s_[0] == "=" and s_[2][0] == "bin" and s_[2][1] in ("Lt", "Le", "Gt", "Ge"):
+                a_, c_ = s_[2][2], s_[2][3]
+                va, vc = nb_.eval_int(a_), nb_.eval_int(c_)
+                fa = any(x[0] == "call" and x[2].endswith("::filesz") for x in nb_.origins(a_)) if a_[0] != "k" else False
+                fc = any(x[0] == "call" and x[2].endswith("::filesz") for x in nb_.origins(c_)) if c_[0] != "k" else False
+                if fa and vc == emin:
+                    cmps_.append((s_[2][1], "filesz", emin, s_[-1] if isinstance(s_[-1], int) else 0))
+                elif fc and va == emin:
+                    cmps_.append(({"Lt": "Gt", "Le": "Ge", "Gt": "Lt", "Ge": "Le"}[s_[2][1]], "filesz", emin, s_[-1] if isinstance(s_[-1], int) else 0))
+    rep.examined(R88, nb_.path + "|min-size", sample={"ENTRY_SZ_MIN": emin, "comparisons_of_filesz_with_it": [c_[:3] for c_ in cmps_]})
+    if not cmps_:
+        raise CheckerError("FixedStructReader::new: no comparison of filesz() with ENTRY_SZ_MIN")
+    for op_, _, _, ln_ in cmps_:
+        if op_ in ("Le", "Gt"):
+            rep.violation(R88, nb_.path + "|min-size", "FixedStructReader::new: filesz() is tested with %s against ENTRY_SZ_MIN=%d; a file of exactly one smallest record (%d bytes, a NetBSD lastlog entry) is rejected as too small and its record is never printed" % (
+                "<=" if op_ == "Le" else ">", emin, emin))
+
+    # ------------------------------------------------------------ R8.9 sibling arms of the renderer agree on sub-ranges of one field
+    R89 = rep.rule("R8.9", "renderer arms that test the same array field use the same index range, and it reaches the array's end")
+    ab_ = prog.body("s4lib::data::fixedstruct::FixedStruct::as_bytes")
+    by_field = {}
+    for c in ab_.live_calls():
+        if c.d.split("::")[-1] in ("index", "index_mut") and len(c.args) >= 2:
+            fld = None
+            for x in ab_.origins(c.args[0], through_calls=("::deref",)):
+                pr = [p_ for p_ in x[-1] if isinstance(p_, str) and p_ not in ("*", "&") and not p_.startswith("as ")]
+                if pr:
+                    fld = pr[-1] if x[0] != "call" else pr[-1]
+            rng = None
+            for x in ab_.origins(c.args[1]):
+                if x[0] == "agg":
+                    st_ = ab_.stmts(x[1])[x[2]]
+                    k_ = st_[2][1]
+                    if isinstance(k_, dict) and k_.get("adt", "").startswith("std::ops::Range"):
+                        rng = (k_["adt"].split("::")[-1], tuple(ab_.eval_int(o_) for o_ in st_[2][2]))
+            if fld and rng:
+                by_field.setdefault(fld, []).append((rng, c.line))
+    n89 = 0
+    for fld, uses in sorted(by_field.items()):
+        if len(uses) < 2:
+            continue
+        n89 += 1
+        kinds = sorted(set(u[0] for u in uses))
+        rep.examined(R89, "as_bytes|%s" % fld, sample={"field": fld, "ranges": [str(k_) for k_ in kinds], "sites": [u[1] for u in uses]})
+        if len(kinds) > 1:
+            rep.violation(R89, "as_bytes|%s" % fld, "FixedStruct::as_bytes: sibling arms test `%s` over different index ranges %s (lines %s); the arm with the shorter range decides IPv4-vs-IPv6 (or similar) on fewer words and prints a wrong value for records the other arm prints correctly" % (
+                fld, [str(k_) for k_ in kinds], [u[1] for u in uses]))
+    if n89 == 0:
+        raise CheckerError("R8.9: no array field is range-indexed by two renderer arms (idiom not recognised)")
+
     return rep.finish(
         "Static necessary-condition check of the accounting-record reader: the ordering index cannot lose records with equal times (key "
         "contains the record offset), the index is walked minimum-first in map order removing the served key, the prefilter loop accepts "
